@@ -60,17 +60,18 @@ Qed.
 Theorem m_is_dir_view : forall w p, BInv w -> pok w p -> yields (m_is_dir p None) w (inl (vdir w p)).
 Proof.
   intros w p HB Hp. unfold m_is_dir. cbn [cf_has_dir cf_has_file].
-  destruct (m_is_removed_sound w p HB) as [w1 [G [E|[E [El Eo]]]]].
+  destruct (m_is_removed_sound w p HB) as [w1 [G [[r [E Hr]]|[E [El Eo]]]]].
   - eapply yields_bind; [exists w1; split; [exact E|exact G]|].
     intros w2 G2. pose proof (good_sv _ _ G2) as S2. pose proof (good_BInv _ _ G2) as B2.
-    unfold vdir. destruct (dead w p) eqn:Ed.
-    + rewrite andb_false_r. apply yields_ret. exact B2.
-    + rewrite andb_true_r. apply yields_get.
-      rewrite (sv_fs _ _ S2). destruct (isdir (w_fs w) p) eqn:Ei.
-      * eapply yields_bind; [|intros w3 G3; apply yields_ret; apply (good_BInv _ _ G3)].
+    unfold vdir. destruct (isdir (w_fs w) p) eqn:Ei.
+    + rewrite (Hr eq_refl). cbn [andb]. destruct (dead w p) eqn:Ed; cbn [negb].
+      * apply yields_ret. exact B2.
+      * apply yields_get. rewrite (sv_fs _ _ S2), Ei.
+        eapply yields_bind; [|intros w3 G3; apply yields_ret; apply (good_BInv _ _ G3)].
         apply m_hde_yields; [exact B2|]. apply hde_ok_vdir; [apply (bi_wf _ B2)|].
         rewrite (same_view_vdir _ _ _ S2). unfold vdir. rewrite Ei, Ed. reflexivity.
-      * apply yields_ret. exact B2.
+    + cbn [andb]. destruct r; [apply yields_ret; exact B2|].
+      apply yields_get. rewrite (sv_fs _ _ S2), Ei. apply yields_ret. exact B2.
   - exfalso. destruct Hp as [Hp|Hp]; [congruence|]. unfold lexists in Hp. rewrite El in Hp. discriminate.
 Qed.
 
